@@ -196,6 +196,13 @@ def run_data(c):
                 r = {'outcome': 'raises:' + type(e).__name__, 'msg': str(e)[:100]}
         r['tape'], r['calls'] = rec.events, calls
         runs.append(r)
+    # history on ONE generator object: the same call repeated on the object used last, from yet another global state
+    np.random.random(11)
+    try:
+        X2 = cc.generate_data(**kw)
+        runs[-1]['reuse'] = {'outcome': 'ok', 'cols': [[int(v) for v in col] for col in X2.T.tolist()]}
+    except Exception as e:                                            # noqa: BLE001
+        runs[-1]['reuse'] = {'outcome': 'raises:' + type(e).__name__}
     return runs
 
 
@@ -398,6 +405,10 @@ def eval_cc2(ctx: Ctx, c, oracle_only, b2, runs, rep, tape, tape_known):
             ctx.nontrivial.add(repr(case))
     if c['t'] == 'data':
         r2 = runs[1]
+        ru = r2.get('reuse')
+        if ru is not None and (ru['outcome'], ru.get('cols')) != (r2['outcome'], r2.get('cols')):
+            ctx.oracle_fail('seed-same-object', f'data {desc}: generate_data called twice on ONE generator object with the same seed {c["seed"]} and '
+                            f'arguments gives different results: {str(r2.get("cols", r2["outcome"]))[:80]} vs {str(ru.get("cols", ru["outcome"]))[:80]}', case)
         if (r2['outcome'], r2.get('cols')) != (r['outcome'], r.get('cols')):
             ctx.oracle_fail('seed', f'data {desc}: same seed {c["seed"]} and arguments, different prior generator state -> different result: '
                             f'{str(r.get("cols", r["outcome"]))[:80]} vs {str(r2.get("cols", r2["outcome"]))[:80]}', case)
